@@ -388,6 +388,13 @@ def replay(chk, rp):
     schema = schema_from_desc(inp["schema"])
     classes = bpgen.build_bp(schema)
     v = parse_term(inp["value"].split())[0]
+    if inp.get("stage") == "pydict":
+        import pydictstage
+        import types
+        c = type(chk)(chk.pid, "quick", 0)
+        b = types.SimpleNamespace(classes=classes, schema=schema, describe=lambda: inp["schema"])
+        pydictstage.oracle(c, b, v, lambda: bpgen.to_py(v, classes), {inp["casing"]: True}, {"schema": inp["schema"], "value": inp["value"]})
+        return bool(c.oracle_failures)
     if inp.get("stage") == "heap":
         c = type(chk)(chk.pid, "quick", 0)
         heapcopy.heap_case(c, None, schema, classes, v, inp["heap_seed"], {"schema": inp["schema"], "value": inp["value"]})
